@@ -264,4 +264,30 @@ def Denotes (classes : List (Ns × Name)) : Target → SpecTarget → Prop
   | .base a, .base b => a = b
   | _, _ => False
 
+/-! ## does a tree of grammar files load?  (files-only criterion, see `C25_loads`) -/
+
+/-- Reference `r` written in file `x` (= `f`) is resolvable by the documentation: an unqualified
+name has a documented resolution; a qualified name names the file itself or one of its direct
+imports, and that file defines the rule. -/
+def docResolvable (fs : FS) (x : Ns) (f : File) (r : Ref) : Bool :=
+  match r.qual with
+  | none => (docResolve fs x r).isSome
+  | some q => (decide (q = x) || (absImports x f).contains q) && fsDefines fs q r.name
+
+/-- every import statement of a file of `S` names a member of `S` -/
+def closedUnder (fs : FS) (S : List Ns) : Bool :=
+  S.all fun a =>
+    match fs a with
+    | none => true
+    | some f => (absImports a f).all fun b => S.contains b
+
+/-- `S` contains the main file and everything it imports, all those files exist and every rule
+reference in them is `docResolvable` -/
+def docLoadable (fs : FS) (S : List Ns) (main : Seg) : Bool :=
+  S.contains [main] && closedUnder fs S &&
+    S.all fun x =>
+      match fs x with
+      | none => false
+      | some f => f.rules.all fun rule => rule.refs.all (docResolvable fs x f)
+
 end Imp
